@@ -1,29 +1,29 @@
 SPECIFICATION Spec
 CONSTANTS
-  Series = {"s1", "s2"}
+  Series = {"s1"}
   TOff = 0
-  TimesRaw = {1, 3, 5, 9}
+  TimesRaw = {0, 2, 5, 6, 9, 11}
   Vals = {1}
   Types = {"f"}
   Apps = {"a1"}
   R = 4
   W = 0
   OOOCap = 2
-  Acts = {"NewAppender", "Append", "Commit", "Delete", "Compact", "CleanTombstones", "Reopen"}
+  Acts = {"NewAppender", "Append", "Commit", "Import", "Reopen", "Compact"}
   Apis = {"v2"}
   Rej = {FALSE}
-  DelLo = {0, 3, 4}
-  DelHi = {2, 3, 9}
-  MaxPend = 3
+  DelLo = {}
+  DelHi = {}
+  MaxPend = 2
   AllowKF = {}
   KFInitOpts = FALSE
   KFV1Hist = FALSE
   PreT = {}
-  TSActs = {"Commit"}
+  TSActs = {"Import"}
   Balanced = FALSE
-  MaxOps = 8
+  MaxOps = 7
   EmitMode = "class"
 VIEW View
-INVARIANTS C01_Exact InoSorted OohSorted
+INVARIANTS C01_Exact InoSorted OohSorted EmitCommitState
 ACTION_CONSTRAINT Emit
 CHECK_DEADLOCK FALSE
